@@ -306,6 +306,9 @@ def ext_comprehension(eng, args, kw, node):
     try:
         eng.assign(g.target, P(src.ty.args[0], src.term[i]))
         v = eng.ev(n.elt)
+    except RaiseSig:
+        eng.st.pc.append(z3.And(i >= 0, i < ln))     # the element that raised exists
+        raise
     finally:
         eng.guards.pop()
         eng.st.vars = saved
@@ -716,3 +719,68 @@ def _strip_chars(side):
 _ws_l, _ws_r = R.ext["str.lstrip"], R.ext["str.rstrip"]
 R.ext["str.lstrip"] = lambda eng, args, kw, node: _ws_l(eng, args, kw, node) if len(args) == 1 else _strip_chars("l")(eng, args, kw, node)
 R.ext["str.rstrip"] = lambda eng, args, kw, node: _ws_r(eng, args, kw, node) if len(args) == 1 else _strip_chars("r")(eng, args, kw, node)
+
+
+# ---------------------------------------------------------------- dict comprehension over a symbolic list, re.compile
+@R.external("comprehension.dict")
+def ext_dict_comprehension(eng, args, kw, node):
+    """{k(x): v(x) for x in L}: fresh map m with  m[k(L[j])] == v(L[j])  for every j, and every key is some k(L[j])"""
+    n, kind, it = args
+    src = lib.seq_of(eng, it)
+    g = n.generators[0]
+    if src is None or g.ifs:
+        raise Unsupported("dict comprehension over %r" % (it,))
+    i = z3.Int(eng.fresh_name("dcomp.i"))
+    ln = z3.Length(src.term)
+    saved = dict(eng.st.vars)
+    eng.guards.append(z3.And(i >= 0, i < ln))
+    try:
+        eng.assign(g.target, P(src.ty.args[0], src.term[i]))
+        kv = eng.ev(n.key)
+        vv = eng.ev(n.value)
+    except RaiseSig:
+        eng.st.pc.append(z3.And(i >= 0, i < ln))     # the element that raised exists
+        raise
+    finally:
+        eng.guards.pop()
+        eng.st.vars = saved
+    if not (isinstance(kv, P) and isinstance(vv, (P, StrOfInt))):
+        raise Unsupported("dict comprehension with non-primitive key/value")
+    vt = vv.ty if isinstance(vv, P) else STR
+    vterm = eng.term(vv, vt)
+    m = eng.fresh_map(kv.ty, vt, "dcomp")
+    j = z3.Int(eng.fresh_name("dcomp.j"))
+    kj = z3.substitute(kv.term, (i, j))
+    eng.st.schemas.append(Schema("dcomp.elem", [j], z3.Implies(z3.And(j >= 0, j < ln), z3.And(
+        z3.Select(m.dom, kj), z3.Select(m.val, kj) == z3.substitute(vterm, (i, j))))))
+    if kv.term.eq(src.term[i]):
+        k = z3.Const(eng.fresh_name("dcomp.k"), sort_of(kv.ty))
+        eng.st.schemas.append(Schema("dcomp.keys", [k], z3.Implies(z3.Select(m.dom, k), z3.Contains(src.term, z3.Unit(k)))))
+    return lib.alloc(eng, MapT(kv.ty, vt), m, "cell.dcomp")
+
+
+_list_comp = R.ext["comprehension"]
+R.ext["comprehension"] = lambda eng, args, kw, node: ext_dict_comprehension(eng, args, kw, node) if args[1] == "dict" \
+    else _list_comp(eng, args, kw, node)
+
+
+@R.external("re.compile")
+def ext_re_compile(eng, args, kw, node):
+    eng.used_assumptions.add("E-resub")
+    if isinstance(args[0], Conc):
+        from pyvc.repo import RePattern
+        fl = args[1].v if len(args) > 1 and isinstance(args[1], Conc) else 0
+        return Conc(RePattern(args[0].v, int(fl)))
+    flags = eng.term(args[1], INT) if len(args) > 1 else zint(0)
+    return P(Opq("Pattern"), uf("re_compile", S, I, sort_of(Opq("Pattern")))(eng.term(args[0], STR), flags))
+
+
+@R.external("meth.Pattern.sub")
+def ext_opaque_pattern_sub(eng, args, kw, node):
+    """sub on a pattern built at run time: loop cut by the invariant `sub<k>` of the enclosing contract; what is known
+    about the match text comes from the loop contract's `match_assume` (an ASSUMED fact, listed as such)"""
+    eng.used_assumptions.add("E-resub")
+    pat, repl, text = args[0], args[1], args[2]
+    if isinstance(repl, Fun):
+        return eng.resub_callable(None, repl, text, node, pattern_val=pat)
+    raise Unsupported("sub with a template on a run-time pattern")
